@@ -134,10 +134,10 @@ def run_histories(ctx, n_random, length, observers_factory, structured=(), seed_
     rng = ctx.rng
     cases = []
     k = 0
-    RULES = ["explicit", "implied", "per-client", "handler"]
+    RULES = ["explicit", "implied", "per-client", "handler", "partial"]
     for j, entry in enumerate(structured):
         label, oidc, roi, ops = entry[:4]
-        rules = entry[4] if len(entry) > 4 else RULES[j % 4]      # a structured history may name the usage-rule delivery it runs under
+        rules = entry[4] if len(entry) > 4 else RULES[j % 5]      # a structured history may name the usage-rule delivery it runs under
         kw = entry[5] if len(entry) > 5 else {}                   # ... and the registration variant (empty3)
         cases.append(one_history(ctx, rng, None, oidc, roi, observers_factory(), label, fixed_ops=ops, rules=rules,
                                  two_redirects=cookie, **kw))
@@ -147,7 +147,7 @@ def run_histories(ctx, n_random, length, observers_factory, structured=(), seed_
         focus = focus_of(i) if focus_of else "mixed"
         ctx.count("history-shape:" + focus)
         plan = sess.gen_history(rng, rng.randint(*length), focus=focus, p_cookie=0.4 if cookie else 0.0)
-        cases.append(one_history(ctx, rng, plan, oidc, roi, observers_factory(), "%s-%d" % (seed_label, i), rules=RULES[(i // 3) % 4],
+        cases.append(one_history(ctx, rng, plan, oidc, roi, observers_factory(), "%s-%d" % (seed_label, i), rules=RULES[(i // 3) % 5],
                                  empty3=(i % 4 == 1), deny=(i % 4 == 3), two_redirects=cookie))
     ctx.coq_check_cases(IMPORTS, "hist", "chk_hist", cases, shard=12, label="hist", diag="diag_hist")
     return cases
